@@ -181,6 +181,34 @@ def check_ff_algebra(ctx, case):
         probs.append(('fidelity != sum_k conj(B)B', float(np.max(np.abs(Ff - ref_f))/sc)))
     if not (np.all(np.isfinite(Fg)) and np.all(np.isfinite(Ff))):
         probs.append(('non-finite', np.inf))
+    # the same identities on a pulse object that has served analysis requests on this grid in
+    # between (infidelities, decay amplitudes, cumulant function, derivative read the cached arrays)
+    q = gens.build(desc)
+    q.get_filter_function(omega, 'fidelity')
+    S = 1/(1 + np.abs(omega))
+    arng = np.random.default_rng(len(omega) + desc['d'])
+    for k in arng.permutation(5)[:3]:
+        try:
+            if k == 0:
+                ff.infidelity(q, S, omega)
+                ff.infidelity(q, S, omega)
+            elif k == 1:
+                numeric.calculate_decay_amplitudes(q, S, omega)
+            elif k == 2:
+                numeric.calculate_cumulant_function(q, S, omega, second_order=bool(arng.integers(0, 2)))
+            elif k == 3:
+                q.get_filter_function_derivative(omega)
+            else:
+                numeric.error_transfer_matrix(q, S, omega)
+        except Exception:   # noqa  (whether these calls succeed is the business of other properties)
+            pass
+    for which, ref in (('fidelity', ref_f), ('generalized', ref_g)):
+        Fq = q.get_filter_function(omega, which)
+        if not np.max(np.abs(Fq - ref))/sc <= 1e-9:
+            probs.append((f'{which} filter function after analysis calls != conj(B)B',
+                          float(np.max(np.abs(Fq - ref))/sc)))
+    if not np.max(np.abs(q.get_control_matrix(omega) - B))/max(np.max(np.abs(B)), 1e-300) <= 1e-9:
+        probs.append(('control matrix after analysis calls differs from a fresh one', 0))
     if not np.max(np.abs(Ff - Ff.conj().transpose(1, 0, 2)))/sc <= 1e-9:
         probs.append(('not Hermitian', 0))
     ev = np.linalg.eigvalsh(Ff.transpose(2, 0, 1))
